@@ -734,6 +734,32 @@ pub fn gen(out: &mut Out, thorough: bool, focus: &str) {
         out.count_n("every_length_strings_names_seqs", n);
         out.exhaustive.push("strings / map keys / field names / variant names of every length 0..=40 (+ a 1-, 2-, 4-byte last character), sequences of every length 0..=40, integer keys of every digit count 1..=18, through the round trip".into());
     }
+    // SCALE: strings, keys, sequences and maps of 2^8 / 2^12 / 2^16 (+-1) elements through the round trip
+    {
+        let mut n = 0u64;
+        for &len in (if thorough { &[255usize, 256, 257, 4095, 4096, 4097, 65535, 65536, 65537][..] } else { &[257usize, 4097, 65537][..] }) {
+            let st = format!("{}é", "s".repeat(len - 1));
+            let mut cases: Vec<(DTy, SD)> = vec![
+                (DTy::Map(Box::new(DTy::Str), Box::new(DTy::Str)), SD::Map(vec![(SD::Str(st.clone()), SD::Str(st.clone())), (SD::Str(format!("{}2", st)), SD::Str(String::new()))])),
+                (DTy::Struct(vec![(st.clone(), DTy::Str), ("b".into(), DTy::Opt(Box::new(DTy::Bool)))]), SD::Struct(vec![(st.clone(), SD::Str(st.clone())), ("b".into(), SD::None)])),
+                (DTy::Enum(vec![(st.clone(), DTy::Unit), ("x".into(), DTy::Newtype(Box::new(DTy::Str)))]), SD::UnitVariant(st.clone())),
+                (DTy::Seq(Box::new(DTy::Int(IntW::U16))), SD::Seq((0..len).map(|i| SD::U((i % 65536) as u64)).collect())),
+                (DTy::Tuple(vec![DTy::Seq(Box::new(DTy::Bool)), DTy::Str]), SD::Seq(vec![SD::Seq((0..len).map(|i| SD::Bool(i % 3 == 0)).collect()), SD::Str("end".into())])),
+            ];
+            if len <= 4097 {
+                cases.push((DTy::Map(Box::new(DTy::Int(IntW::U32)), Box::new(DTy::Bool)), SD::Map((0..len).map(|i| (SD::U(i as u64 * 3), SD::Bool(i % 2 == 0))).collect())));
+                cases.push((DTy::Map(Box::new(DTy::Str), Box::new(DTy::Int(IntW::I64))), SD::Map((0..len).map(|i| (SD::Str(format!("k{:05}", i)), SD::I(-(i as i64)))).collect())));
+            }
+            for (ty, d) in cases {
+                if let Ok(v) = json_syntax::to_value(&d) {
+                    l(format!("serde rt {} {} {}", show_dty(&ty), show_sd(&d), num_table(&v)), out);
+                    n += 1;
+                }
+            }
+        }
+        out.count_n("scale_data", n);
+        out.exhaustive.push("scale: strings / keys / field and variant names, sequences, integer- and string-keyed maps of 2^8, 2^12, 2^16 (+-1) elements through the round trip".into());
+    }
     // every leaf type against every kind of value
     let leaves = ["b", "I1", "I2", "I4", "I8", "U1", "U2", "U4", "U8", "f4", "f8", "c", "s", "n", "N", "ob", "oI1", "wb", "wU1", "qb", "t[bb]", "T[bb]", "t[]", "msb", "mI1b", "mU8b", "mcb", "me[61;n62;n]b", "mwsb", "r[]", "r[61;b]", "r[61;ob62;I1]", "e[61;n]", "e[61;wb62;t[bb]63;r[78;b]64;n]"];
     let values = ["n", "t", "#30;", "#2d.31;", "#32.35.35;", "#32.35.36;", "#2d.31.32.38;", "#2d.31.32.39;", "#31.2e.35;", "#31.65.32;", "#2d.30;", "#31.38.34.34.36.37.34.34.30.37.33.37.30.39.35.35.31.36.31.35;", "#31.38.34.34.36.37.34.34.30.37.33.37.30.39.35.35.31.36.31.36;", "#2d.39.32.32.33.33.37.32.30.33.36.38.35.34.37.37.35.38.30.38;", "#2d.39.32.32.33.33.37.32.30.33.36.38.35.34.37.37.35.38.30.39;", "#31.65.34.30.30;",
